@@ -2,6 +2,7 @@ package sim
 
 import (
 	"fmt"
+	"os"
 	"sort"
 )
 
@@ -119,7 +120,15 @@ func RunHistory(s *Sim, p *Profile, mons []Monitor, stats *Stats, index int) {
 	}
 	var script []*Action
 	tpl := ""
-	if len(p.Templates) > 0 && r.Float64() < p.TplProb {
+	if only := os.Getenv("VERIF_ONLY_TEMPLATE"); only != "" && len(p.Templates) > 0 {
+		// debugging aid: run only the named directed template in every history
+		for _, t := range p.Templates {
+			if t.Name == only {
+				script = t.F(s)
+				tpl = t.Name
+			}
+		}
+	} else if len(p.Templates) > 0 && r.Float64() < p.TplProb {
 		// try a few templates until one applies to this configuration
 		for try := 0; try < 4 && script == nil; try++ {
 			t := p.Templates[r.Intn(len(p.Templates))]
